@@ -46,6 +46,7 @@ structure DS where
   ft : FdTable.T := {}                 -- the side conns of the engine (fd table model)
   us : Option UdpSess.St := none        -- timed UDP cases: sessions in logical time (ms)
   remotes : List String := []
+  client : Bool := false               -- a dialed UDP conn: the UDP model with one remote, the session identified with the conn
   wadded : Bool := false               -- the writing event was armed (write backlog): one EPOLL_CTL_MOD in LT mode
 
 
@@ -90,8 +91,9 @@ def sidePairs : List String → Option (List (Nat × List UInt8))
 def showSt (d : DS) (what : String) : String × DS :=
   let s := d.s
   let q := if d.g.udp then s.k.dq.length else s.k.rq.length
-  let opens := String.intercalate "," ((s.opens.drop d.nOpen).map toString)
-  let dels := String.intercalate "," ((s.dlv.drop d.nDlv).map fun (id, b) => s!"{id}:{b.length}:{hex16 (Drv.fnv b)}")
+  -- a dialed UDP conn: announced once like a stream conn (id 0); the model's session of its one remote IS the conn
+  let opens := String.intercalate "," (((s.opens.drop d.nOpen).filter fun i => !d.client || i == 0).map toString)
+  let dels := String.intercalate "," ((s.dlv.drop d.nDlv).map fun (id, b) => s!"{if d.client then 0 else id}:{b.length}:{hex16 (Drv.fnv b)}")
   let cl := if s.closed then "1:" ++ cerrStr s.cerr else "0"
   (s!"R {what} open=[{opens}] del=[{dels}] q={q} re={s.re} task={taskStr s.task} arm={b2s s.k.armed} edge={b2s s.k.edge} closed={cl} reads={s.reads} idle={s.idle} ctl={ctlStr d.g s d.wadded}",
    { d with nOpen := s.opens.length, nDlv := s.dlv.length })
@@ -133,10 +135,11 @@ partial def loop (h : IO.FS.Stream) (d : DS) : IO Unit := do
       if exec == "real" && (typ == "tcp" || typ == "unix" || typ == "udp") && rbs.toNat! > 0 && cap.toNat! > 0 && np.toNat! > 0 then
         -- supporting real-kernel tier: nothing to predict, the direct oracles judge
         IO.println "R real ok"; loop h { d with dead := true }
-      else if (exec == "def" || exec == "park") && (typ == "tcp" || typ == "unix" || typ == "udp") && rbs.toNat! > 0 && cap.toNat! > 0 && np.toNat! > 0 then
-        let g : Cfg := { mode := m, async := async == "1", rbs := rbs.toNat!, cap := cap.toNat!, udp := typ == "udp" }
-        let s : St := if g.udp then init else { init with opens := [0] }
-        say { g, s, exec, us := if udpto > 0 then some { T := udpto } else none } "ok"
+      else if (exec == "def" || exec == "park") && (typ == "tcp" || typ == "unix" || typ == "udp" || typ == "udpc") && rbs.toNat! > 0 && cap.toNat! > 0 && np.toNat! > 0 then
+        let g : Cfg := { mode := m, async := async == "1", rbs := rbs.toNat!, cap := cap.toNat!, udp := typ == "udp" || typ == "udpc" }
+        let client := typ == "udpc"
+        let s : St := if g.udp && !client then init else { init with opens := [0] }
+        say { g, s, exec, client, us := if udpto > 0 && !client then some { T := udpto } else none } "ok"
       else IO.println "bad-op"; loop h d
     | none => IO.println "bad-op"; loop h d
   | _ =>
